@@ -2113,6 +2113,7 @@ func (c ipamClient) incrementHandle(ctx context.Context, handleID string, blockC
 }
 
 func (c ipamClient) decrementHandle(ctx context.Context, handleID string, blockCIDR net.IPNet, num int, obj *model.KVPair) error {
+	callerSuppliedHandle := obj != nil
 	for i := range datastoreRetries {
 		var err error
 		// Query the handle if either of these conditions is true:
@@ -2128,6 +2129,12 @@ func (c ipamClient) decrementHandle(ctx context.Context, handleID string, blockC
 
 		_, err = handle.decrementBlock(blockCIDR, num)
 		if err != nil {
+			if i == 0 && callerSuppliedHandle {
+				// The caller's pre-fetched copy of the handle may be stale (for example,
+				// the handle gained this block after the caller listed the handles).
+				// Re-read the handle and try again before giving up.
+				continue
+			}
 			return err
 		}
 
